@@ -120,6 +120,10 @@ class Symbol(ExpressionToken):
 
         extern_mapping = compiler.extern_symbols_mapping.get(self.name)
         if extern_mapping:
+            # The file may still define a symbol of its own with this name
+            # further down, which takes precedence over the exported one.
+            # Commit to the exported symbol only when everything is known.
+            not_ready()
             extern = compiler.symbols.get(extern_mapping[1])
             if extern:
                 return extern
